@@ -31,6 +31,7 @@ type harnessCfg struct {
 	seed       int64
 	Stall      bool
 	TimeFixed  bool
+	TimeBudget time.Duration // wall-clock budget for the exploration of one harness
 }
 
 func (c *harnessCfg) valLimit() int {
